@@ -944,6 +944,7 @@ DLLIMPORT cfg_value_t *cfg_setopt(cfg_t *cfg, cfg_opt_t *opt, const char *value)
 		} else {
 			int radix;
 			const char *int_str;
+			const char *digits = NULL;
 			if (!value) {
 				errno = EINVAL;
 				return NULL;
@@ -956,18 +957,23 @@ DLLIMPORT cfg_value_t *cfg_setopt(cfg_t *cfg, cfg_opt_t *opt, const char *value)
 					case 'b':
 						radix = 2;
 						int_str = &value[2];
+						digits = "01";
 						break;
 					case 'x':
 						radix = 16;
 						int_str = &value[2];
+						digits = "0123456789abcdefABCDEF";
 						break;
 					default:
 						radix = 8;
-						int_str = &value[1];
+						digits = "01234567";
 				}
 			}
+			errno = 0;
 			i = strtol(int_str, &endptr, radix);
-			if (*endptr != '\0') {
+			/* need at least one digit, nothing but digits after a radix prefix */
+			if (endptr == int_str || *endptr != '\0' ||
+			    (digits && int_str[strspn(int_str, digits)] != '\0')) {
 				cfg_error(cfg, _("invalid integer value for option '%s'"), opt->name);
 				return NULL;
 			}
@@ -988,8 +994,9 @@ DLLIMPORT cfg_value_t *cfg_setopt(cfg_t *cfg, cfg_opt_t *opt, const char *value)
 				errno = EINVAL;
 				return NULL;
 			}
+			errno = 0;
 			f = strtod(value, &endptr);
-			if (*endptr != '\0') {
+			if (endptr == value || *endptr != '\0') {
 				cfg_error(cfg, _("invalid floating point value for option '%s'"), opt->name);
 				return NULL;
 			}
